@@ -1,6 +1,6 @@
 ---- MODULE Conf_Icap ----
 EXTENDS Icap, ConfLib
 Case == Cases[i]
-CaseOk == i > 0 => Delivered(Case.vv, Case.lv, Case.va, Case.la, Case.bypass, Case.icapFail, Case.squidError, Case.hv, Case.bv, Case.blen, Case.intact, Case.complete)
+CaseOk == i > 0 => Delivered(Case.vv, Case.lv, Case.va, Case.la, Case.bypass, Case.icapFail, Case.squidError, Case.hv, Case.bv, Case.blen, Case.intact, Case.complete, Case.mustVirgin)
 ImplOk == TRUE
 ====
